@@ -172,6 +172,12 @@ theorem ws_around_colon (t r v w1 w2 : Inp) (p : String) (hw1 : WsSeq w1) (hw2 :
     parseDeclaration t = parseDeclaration t' :=
   parseDeclaration_colon t r v w1 w2 p hw1 hw2 t' r' h1 h2 hr hr'
 
+/-- **rule sets**: whitespace and comments in front of a rule set, between its selector list and `{`, and after `{` do not
+    matter (`bodyOf sels rest` is what `parse_ruleset` does after a selector list that ended at `rest`; `parseRuleset_eq`) -/
+theorem ruleset_ws_absorbed (w w1 w2 : Inp) (hw : WsSeq w) (h1 : WsSeq w1) (h2 : WsSeq w2) (t r : Inp) (sels : List Selector) :
+    parseRuleset (w ++ t) = parseRuleset t ∧ bodyOf sels (w1 ++ '{' :: (w2 ++ r)) = bodyOf sels ('{' :: r) :=
+  ⟨parseRuleset_absorbs w hw t, ruleset_open_brace sels w1 w2 r h1 h2⟩
+
 /-- non-vacuity: a blank, a newline and a comment holding `;` and `}` form such a sequence; a comment without `*` in its
     body always closes at its own `*/` -/
 example : WsSeq " \n/* ; } */\t".toList :=
